@@ -277,7 +277,7 @@ func ruleSubscribeMultiplicity() check.Rule {
 func ruleObservableParamUsed() check.Rule {
 	return check.Rule{
 		Name: "PARAM-USED",
-		Doc:  "every parameter of observable type (Observable[T], a slice or variadic of them) of an exported operator constructor, and of the application function it returns, is referenced in the body (subscribed, passed on, ranged over): an operator that never touches one of its inputs - for instance after the statement that subscribed the notifier was dropped - cannot implement its definition",
+		Doc:  "every parameter of observable type (Observable[T], a slice or variadic of them) or of function type (user callbacks) of an exported function, and of the application function it returns, is referenced in the body (subscribed, passed on, ranged over): an operator that never touches one of its inputs - for instance after the statement that subscribed the notifier was dropped - cannot implement its definition",
 		Run: func(c *check.Ctx) {
 			m := c.M
 			isObs := func(t types.Type) bool {
@@ -321,10 +321,20 @@ func ruleObservableParamUsed() check.Rule {
 						})
 						for _, fn := range fns {
 							for _, pv := range model.FlattenParams(info, fn.ft.Params) {
-								if pv == nil || pv.Name() == "_" || pv.Name() == "" || !isObs(pv.Type()) {
+								if pv == nil || pv.Name() == "_" || pv.Name() == "" {
 									continue
 								}
-								c.Inc("observable_params", 1)
+								_, isFn := pv.Type().Underlying().(*types.Signature)
+								if !isObs(pv.Type()) && !isFn {
+									continue
+								}
+								what := "observable"
+								if isFn {
+									what = "callback"
+									c.Inc("callback_params", 1)
+								} else {
+									c.Inc("observable_params", 1)
+								}
 								used := false
 								ast.Inspect(fn.body, func(x ast.Node) bool {
 									if id, ok := x.(*ast.Ident); ok && info.Uses[id] == types.Object(pv) {
@@ -334,9 +344,9 @@ func ruleObservableParamUsed() check.Rule {
 								})
 								key := fmt.Sprintf("%s.%s/param-%s-used", model.ShortPkg(p.PkgPath), fd.Name.Name, pv.Name())
 								if used {
-									c.OK(key, pv.Pos(), "the observable parameter is used")
+									c.OK(key, pv.Pos(), "the %s parameter is used", what)
 								} else {
-									c.Violation(key, pv.Pos(), "observable parameter %q of %s is never used: the operator ignores one of its inputs", pv.Name(), fd.Name.Name)
+									c.Violation(key, pv.Pos(), "%s parameter %q of %s is never used: the operator ignores one of its inputs (a user callback that is never called, an observable that is never subscribed)", what, pv.Name(), fd.Name.Name)
 								}
 							}
 						}
